@@ -15,7 +15,19 @@ import (
 // splitSpecs: buckets whose creating write was acknowledged before k (A) and the others (B).
 func splitSpecs(cr *crashRun, k int) (a, b []wl.BucketSpec) {
 	co := creatingOp(cr.H)
+	hasDestroy := false
+	for _, op := range cr.H.Ops {
+		hasDestroy = hasDestroy || op.Kind == "destroy"
+	}
 	for bi, s := range cr.H.Buckets {
+		if hasDestroy {
+			if ex, settled := existsAt(cr, k, bi); ex && settled {
+				a = append(a, s)
+			} else {
+				b = append(b, s)
+			}
+			continue
+		}
 		if op, ok := co[bi]; ok && cr.acked(op, k) {
 			a = append(a, s)
 		} else {
@@ -163,6 +175,12 @@ func runCrashSweep(t *testing.T, cfg crashSweepCfg) {
 		}
 		rec.Class("histories", 1)
 		rec.Class(fmt.Sprintf("ops=%d", len(h.Ops)), 1)
+		for _, op := range h.Ops {
+			if op.Kind == "destroy" {
+				rec.Class("history-with-destroy", 1)
+				break
+			}
+		}
 		rec.Sample(map[string]interface{}{"history": h, "events": len(cr.Events), "crash_points": len(cr.Points)})
 		rec.Flush()
 	})
